@@ -121,8 +121,9 @@ Print Assumptions C17_v1_leader_balance.
    least r data centres: no two replicas of a partition share a data centre — for the whole range the
    property quantifies over (<= 40 nodes, <= 4 data centres, <= 64 partitions; r <= #DCs). Proof: the run on
    an arbitrary ring is the relabelling of the run on the canonical ring (ids are only compared for
-   equality), and the canonical runs are swept exhaustively by vm_compute (Place/Sweep*.v: every rotation,
-   every p; they also show that the fill phase leaves balanced load maps, so no move happens). *)
+   equality), and the canonical runs are swept exhaustively by vm_compute (Place/Sweep*.v: every rotation; the
+   partitions are placed one after the other and the DC test and the "balanced" test of moveIfUnbalanced
+   are evaluated after each, which covers every p <= 64 and shows that no move happens on fresh layouts). *)
 Theorem C17_v2_fresh_dc_spread : forall ver ns p r nodes k l,
   is_v2 ver = true -> NoDup (map fst nodes) -> ~ In [] (map fst nodes) -> nodes <> [] ->
   even_topology nodes k -> N.to_nat r <= length (dcs_of nodes) ->
